@@ -309,6 +309,8 @@ func TestScripts(t *testing.T) {
 			tr = runOrderRT(t, line)
 		case strings.HasPrefix(line, "swrt "):
 			tr = runTunnelRT(t, line)
+		case strings.HasPrefix(line, "crt "):
+			tr = runCloseRT(t, line)
 		default:
 			tr = "bad-op"
 		}
